@@ -303,7 +303,7 @@ class Check:
         sig = sig or {}
         k = match_known(self.pid, sig) if sig else None
         if k is not None:
-            if not any(x[0] is k for x in self.known):
+            if not any(x[0]['what'] == k['what'] for x in self.known):
                 self.known.append((k, what))
             return False
         self.violations.append((sig, what, replay_obj))
